@@ -369,5 +369,20 @@ pub fn cmd_params(args: &[String]) {
             if rc != 0 && cls(&one) == "Ok" { rep.fail("generichash: accepts parameters libsodium refuses", json!({"keylen": kl, "outlen": ol})); }
         }
     }
+    // the object API with the key in a container that has no length of its own (Vec, slice): whatever the one-shot form makes of
+    // a key that holds more or fewer bytes than KEY_LENGTH, the incremental form makes the same of it
+    {
+        use dryoc::generichash::GenericHash;
+        for kl in [16usize, 31, 32, 33, 48, 64] {
+            let key = rng.bytes(kl);
+            let msg = rng.bytes(150);
+            rep.evaluations += 1;
+            let one = catch(|| GenericHash::<32, 32>::hash::<Vec<u8>, Vec<u8>, Vec<u8>>(&msg, Some(&key)).map_err(|e| format!("{:?}", e)));
+            let inc = catch(|| -> Result<Vec<u8>, String> { let mut h = GenericHash::<32, 32>::new(Some(&key)).map_err(|e| format!("{:?}", e))?; h.update(&msg[..70].to_vec()); h.update(&msg[70..].to_vec()); h.finalize::<Vec<u8>>().map_err(|e| format!("{:?}", e)) });
+            let d = json!({"key_container": "Vec<u8>", "key_len": kl, "KEY_LENGTH": 32, "oneshot": cls(&one), "incremental": cls(&inc)});
+            if cls(&one) != cls(&inc) { rep.fail("GenericHash object (key in a Vec): one-shot and incremental disagree on whether the key is acceptable", d.clone()); continue; }
+            if let (Ok(Ok(a)), Ok(Ok(b))) = (&one, &inc) { if a != b { rep.fail("GenericHash object (key in a Vec): incremental result differs from the one-shot function", d.clone()); } }
+        }
+    }
     rep.write(&args[0]);
 }
